@@ -2,7 +2,7 @@
 
 A *peer* is an object with ``connect(host, port) -> conn`` (or raises seams.NeedsNetwork); a *conn* has
 ``feed(data: bytes) -> list[bytes | None]`` returning the chunks the kernel would deliver to the client, in order;
-``None`` in the list means EOF (connection closed by the peer).  The sync side is FakeSocket, the async side a real
+``None`` in the list means EOF (connection closed by the peer); a tuple groups segments that arrive together.  The sync side is FakeSocket, the async side a real
 ``asyncio.StreamReader`` fed chunk by chunk plus a FakeWriter.
 """
 from __future__ import annotations
@@ -40,7 +40,8 @@ class FakeSocket:
     def sendall(self, data: t.Any, flags: int = 0) -> None:
         b = bytes(data)
         self.sent.append(b)
-        self.chunks.extend(self.conn.feed(b))
+        for c in self.conn.feed(b):
+            self.chunks.extend(c if isinstance(c, tuple) else [c])
 
     def send(self, data: t.Any, flags: int = 0) -> int:
         self.sendall(data)
@@ -161,7 +162,9 @@ class FakeWriter:
 
 def deliver(reader: asyncio.StreamReader, chunks: t.Sequence[t.Optional[bytes]]) -> None:
     for c in chunks:
-        if c is None:
+        if isinstance(c, tuple):  # segments that reach the client together (e.g. the last data segment with the FIN behind it)
+            deliver(reader, c)
+        elif c is None:
             reader.feed_eof()
         elif c:
             reader.feed_data(c)
